@@ -506,3 +506,176 @@ theorem rOnChunk_pos (st : RSt) (chunk : Text) (hT : TokOK chunk) (m : Mapping) 
         ⟨by simp, by simp, (by by_cases hc : chunk = []; exact Or.inr ⟨hc, rfl⟩; exact Or.inl (List.length_pos_iff.mpr hc)), h⟩
 
 end Rs
+
+namespace Rs
+
+/-- every chunk text is a token: at most one line break, at its end -/
+def ChunksTok (evs : List Ev) : Prop := ∀ t m, Ev.chunk (some t) m ∈ evs → TokOK t
+
+theorem adv_tok (chunk : Text) (hT : TokOK chunk) (gl gc : Nat) :
+    adv ⟨gl, gc⟩ chunk = ⟨(innerAfter chunk gl gc).1, (innerAfter chunk gl gc).2⟩ := by
+  obtain ⟨s, hs, hc⟩ := hT
+  unfold innerAfter
+  rcases hc with rfl | rfl
+  · rw [endsWithNL_noNL chunk hs, adv_noNL chunk _ hs]; rfl
+  · rw [endsWithNL_snoc, adv_line s _ hs]; rfl
+
+theorem rEvs_pos : ∀ (evs : List Ev) (st : RSt) (opre ipre : Text), posOKT ipre evs → ChunksTok evs → evsTL evs = false →
+    RInv st (adv startPos opre) (adv startPos ipre).line (adv startPos ipre).col →
+    posOKW opre (rEvs st evs).2
+    ∧ RInv (rEvs st evs).1 (adv startPos (opre ++ evsText (rEvs st evs).2)) (adv startPos (ipre ++ evsText evs)).line (adv startPos (ipre ++ evsText evs)).col := by
+  intro evs
+  induction evs with
+  | nil => intro st opre ipre _ _ _ h; simpa [rEvs, evsText_nil, posOKW] using h
+  | cons e es ih =>
+    intro st opre ipre hp hT hTL h
+    have hTs : ChunksTok es := fun t m hm => hT t m (by simp [hm])
+    have hTLs : evsTL es = false := by simp only [evsTL_cons, Bool.or_eq_false_iff] at hTL; exact hTL.2
+    unfold rEvs
+    simp only
+    cases e with
+    | chunk t m =>
+      cases t with
+      | none => simp [evsTL_cons, Ev.textless] at hTL
+      | some t =>
+        simp only [posOKT] at hp
+        obtain ⟨hpos, hrest⟩ := hp
+        have htok := hT t m (by simp)
+        have hstart : RInv st (adv startPos opre) m.gl m.gc := by
+          have e1 : (adv startPos ipre).line = m.gl := by rw [← hpos]
+          have e2 : (adv startPos ipre).col = m.gc := by rw [← hpos]
+          rw [e1, e2] at h; exact h
+        obtain ⟨q1, q2⟩ := rOnChunk_pos st t htok m opre hstart
+        simp only [rEv, Option.getD_some]
+        have hinner : adv startPos (ipre ++ t) = ⟨(innerAfter t m.gl m.gc).1, (innerAfter t m.gl m.gc).2⟩ := by
+          rw [adv_append, ← hpos, adv_tok t htok]
+        obtain ⟨i1, i2⟩ := ih (rOnChunk st t m).1 (opre ++ evsText (rOnChunk st t m).2) (ipre ++ t) hrest hTs hTLs (by rw [hinner]; exact q2)
+        refine ⟨?_, ?_⟩
+        · rw [posOKW_append]; exact ⟨q1, i1⟩
+        · rw [evsText_append, ← List.append_assoc, evsText_cons]
+          simp only [Ev.text]
+          rw [← List.append_assoc]; exact i2
+    | source i s c =>
+      simp only [rEv]
+      obtain ⟨i1, i2⟩ := ih { st with contents := lmInsert none st.contents i c } opre ipre hp hTs hTLs ⟨h.1, h.2, h.3⟩
+      refine ⟨i1, ?_⟩
+      rw [evsText_append, evsText_singleton, evsText_cons]
+      simpa [Ev.text] using i2
+    | name i n =>
+      simp only [rEv]
+      have hno := globalName_noChunk st.nameMapping n
+      obtain ⟨i1, i2⟩ := ih { st with nameMapping := (globalName st.nameMapping n).1, nim := lmInsert 0 st.nim i (globalName st.nameMapping n).2.2 }
+        opre ipre hp hTs hTLs ⟨h.1, h.2, h.3⟩
+      have htx : evsText (globalName st.nameMapping n).2.1 = [] := globalName_notext _ _
+      refine ⟨?_, ?_⟩
+      · rw [posOKW_append, htx, List.append_nil]; exact ⟨posOKW_noChunk _ _ hno, i1⟩
+      · rw [evsText_append, htx, List.nil_append, evsText_cons]
+        simpa [Ev.text] using i2
+
+end Rs
+
+namespace Rs
+
+theorem rRemainder_eq (gcInfo : Nat) : ∀ (cls : List Text) (n : Option Nat) (st : RSt) (line : Int),
+    rRemainder gcInfo cls st line = emitContent gcInfo none cls n st line := by
+  intro cls
+  induction cls with
+  | nil => intro n st line; rfl
+  | cons cl cls ih =>
+    intro n st line
+    simp only [rRemainder, emitContent, Option.map_none]
+    split <;> simp only [ih none]
+
+theorem emitContent_line (gc : Nat) (orig : Option Orig) : ∀ (cls : List Text) (n : Option Nat) (st : RSt) (line : Int),
+    (emitContent gc orig cls n st line).2.2 - (emitContent gc orig cls n st line).1.lineOff = line - st.lineOff := by
+  intro cls
+  induction cls with
+  | nil => intro n st line; rfl
+  | cons cl cls ih =>
+    intro n st line
+    simp only [emitContent]
+    split
+    · rw [ih]; split <;> rfl
+    · rw [ih]; simp only; omega
+
+theorem nlCount_le (t : Text) : nlCount t ≤ t.length := by
+  induction t with
+  | nil => simp [nlCount]
+  | cons c cs ih => simp only [nlCount, List.length_cons]; split <;> omega
+
+theorem lastLen_le (t : Text) : lastLen t ≤ t.length := by
+  induction t with
+  | nil => simp [lastLen]
+  | cons c cs ih => simp only [lastLen, List.length_cons]; repeat' split
+                    all_goals omega
+
+theorem adv_bound (t : Text) : (adv startPos t).line ≤ t.length + 1 ∧ (adv startPos t).col ≤ t.length := by
+  rw [adv_char]
+  have h1 := nlCount_le t
+  have h2 := lastLen_le t
+  simp only [startPos]
+  refine ⟨by omega, ?_⟩
+  split <;> omega
+
+theorem u32_small (n : Nat) (h : n < 2 ^ 32) : u32 (n : Int) = n := by
+  unfold u32
+  rw [Int.emod_eq_of_lt (by omega) (by omega)]; simp
+
+/-- below `2^32` bytes the `u32` conversions are the identity -/
+theorem posOKW_posOKT : ∀ (evs : List Ev) (pre : Text), posOKW pre evs → (pre ++ evsText evs).length + 1 < 2 ^ 32 → posOKT pre evs := by
+  intro evs
+  induction evs with
+  | nil => intro _ _ _; trivial
+  | cons e es ih =>
+    intro pre h hb
+    cases e with
+    | chunk t m =>
+      cases t with
+      | none => exact ih pre h (by simpa [evsText_cons, Ev.text] using hb)
+      | some t =>
+        obtain ⟨⟨h1, h2⟩, h3⟩ := h
+        have hlen : pre.length + 1 < 2 ^ 32 := by simp [evsText_cons, Ev.text] at hb; omega
+        obtain ⟨b1, b2⟩ := adv_bound pre
+        refine ⟨?_, ih (pre ++ t) h3 (by simpa [evsText_cons, Ev.text, List.append_assoc] using hb)⟩
+        rw [u32_small _ (by omega)] at h1 h2
+        cases hp : adv startPos pre
+        rw [hp] at h1 h2
+        simp only at h1 h2
+        rw [h1, h2]
+    | source i s c => exact ih pre h (by simpa [evsText_cons, Ev.text] using hb)
+    | name i n => exact ih pre h (by simpa [evsText_cons, Ev.text] using hb)
+
+/-- **ReplaceSource**: if the inner stream reports true positions, carries its texts and cuts them into tokens, then the
+spliced stream reports true positions too (output shorter than `2^32` bytes) -/
+theorem replaceStream_posOK (sorted : List Repl) (inner : SResult) (hp : PosOK inner) (hT : ChunksTok inner.evs) (hTL : evsTL inner.evs = false)
+    (hb : (evsText (replaceStream sorted inner).evs).length + 1 < 2 ^ 32) : PosOK (replaceStream sorted inner) := by
+  obtain ⟨hp1, hp2⟩ := hp
+  have hinit : RInv { rest := sorted } (adv startPos []) (adv startPos []).line (adv startPos []).col :=
+    ⟨by simp [adv, startPos], by simp [adv, startPos], by simp [adv, startPos]⟩
+  obtain ⟨q1, q2⟩ := rEvs_pos inner.evs { rest := sorted } [] [] hp1 hT hTL hinit
+  simp only [List.nil_append] at q2
+  rw [← hp2] at q2
+  unfold replaceStream at hb ⊢
+  simp only at hb ⊢
+  generalize hR : rEvs { rest := sorted } inner.evs = R at *
+  obtain ⟨st, evs⟩ := R
+  simp only at q1 q2 hb ⊢
+  rw [rRemainder_eq _ _ none] at hb ⊢
+  obtain ⟨c1, c2⟩ := emitContent_pos inner.info.col none (splitLines ((st.rest.map (·.content)).flatten)) (lines_of_splitLines _) none st
+    (evsText evs) inner.info.line q2
+  have hline := emitContent_line inner.info.col none (splitLines ((st.rest.map (·.content)).flatten)) none st ((inner.info.line : Int) + st.lineOff)
+  obtain ⟨t1, _, _, _⟩ := emitContent_spec inner.info.col none (splitLines ((st.rest.map (·.content)).flatten)) none st ((inner.info.line : Int) + st.lineOff)
+  generalize hC : emitContent inner.info.col none (splitLines ((st.rest.map (·.content)).flatten)) none st ((inner.info.line : Int) + st.lineOff) = C at *
+  obtain ⟨st', evR, line⟩ := C
+  simp only at c1 c2 hline t1 hb ⊢
+  have hW : posOKW [] (evs ++ evR) := by rw [posOKW_append]; exact ⟨q1, by simpa using c1⟩
+  refine ⟨posOKW_posOKT _ _ hW (by simpa using hb), ?_⟩
+  have hl : line = (inner.info.line : Int) + st'.lineOff := by omega
+  obtain ⟨r1, r2⟩ := rinv_report st' _ inner.info.line inner.info.col c2
+  rw [hl, r1, r2, evsText_append, t1]
+  have hlen : (evsText evs ++ (splitLines ((st.rest.map (·.content)).flatten)).flatten).length + 1 < 2 ^ 32 := by
+    rw [evsText_append, t1] at hb; exact hb
+  obtain ⟨b1, b2⟩ := adv_bound (evsText evs ++ (splitLines ((st.rest.map (·.content)).flatten)).flatten)
+  rw [u32_small _ (by omega), u32_small _ (by omega)]
+
+end Rs
